@@ -180,6 +180,12 @@ Definition RG_typed_long_in_container := 17%nat.
 Definition RG_typed_datum := 18%nat.   (* typed-datum-field-shape *)
 Definition RG_key_list_to_dict := 19%nat.   (* map-key-list-to-dict *)
 Definition RG_typed_to_dict_tag := 20%nat.  (* typed-to-dict-cbortag *)
+(* NOT a defect of the pinned tree: inputs the long-bytes guard must refuse (plain bytes over 64 bytes as the value of
+   a field of a typed class).  On the pinned tree no such object exists, so no route can fail here; a failing
+   route in this region means that the guard let the value through and wrong bytes were written. *)
+Definition RG_guard := 21%nat.              (* long-bytes-guard-bypassed *)
+Definition RG_json_union_prim := 22%nat.    (* typed-json-union-primitive *)
+Definition RG_json_postponed := 23%nat.     (* typed-json-postponed-annotations *)
 
 Definition first_region (l : list (bool * nat)) : nat :=
   match find (fun p => negb (fst p)) l with Some p => snd p | None => RG_none end.
@@ -291,10 +297,20 @@ Definition constructible (v : pv) : bool := guard_ok v && dict_keys_ok false v.
 
 Definition cls_of (t : ty) : N * list ty := match t with TCls id fts => (id, fts) | _ => (0, []) end.
 
-(* routes: 0 to_cbor, 1 datum_hash consistent, 2 from_cbor(to_cbor x).to_cbor, 3 from_cbor(reference bytes).to_cbor,
-   4 to_dict, 5 from_dict(to_dict), 6 from_json(to_json), 7 the object as the data of a Redeemer: the redeemer's
-   bytes are the 4-array  tag, index, <the bytes of route 0>, ex_units;  9 construction succeeded *)
-Definition typed_model (route : nat) (t : ty) (x : pv) : out :=
+(* building the object in the driver (bottom-up through the dataclass constructors): the long-bytes guard of
+   every class met on the way, hashable dict keys.  Both failing at once depends on Python's evaluation order and
+   is outside the model (never generated). *)
+Definition construct_model (x : pv) : out :=
+  if dict_keys_ok false x then (if guard_ok x then OF true else OB (Err E_InvArg))
+  else if guard_ok x then OB (Err E_Type) else OB (Err E_OOM).
+
+(* routes: 0 to_cbor, 1 datum_hash consistent, 2 from_cbor(to_cbor x).to_cbor, 3 from_cbor(reference bytes).to_cbor
+   (observed whether or not x could be built: it needs the class and the reference bytes only),
+   4 to_dict, 5 from_dict(to_dict), 6 from_json(to_json) -- both BEFORE any from_cbor call on the class, which is what
+   `pp` (postponed annotations, see Plutus.t_undict) is sensitive to --, 7 the object as the data of a Redeemer: the
+   redeemer's bytes are the 4-array  tag, index, <the bytes of route 0>, ex_units;
+   9 construction: OF true, or the exception kind *)
+Definition typed_model (route : nat) (pp : bool) (t : ty) (x : pv) : out :=
   let '(id, fts) := cls_of t in
   match route with
   | 0 => OB (to_cbor (pynorm x))
@@ -306,10 +322,10 @@ Definition typed_model (route : nat) (t : ty) (x : pv) : out :=
   | 3 => OB (do y <- typed_from_cbor id fts (plutus_bytes (abs x)); to_cbor y)
   | 4 => OJ (t_dict (pynorm x))
   | 5 | 6 => match t_dict (pynorm x) with
-             | Ok j => OB (do y <- t_undict id fts j; to_cbor y)
+             | Ok j => OB (do y <- t_undict pp id fts j; to_cbor y)
              | Err _ => OSkip
              end
-  | 9 => OF (constructible x)
+  | 9 => construct_model x
   | _ => OSkip
   end%nat.
 
@@ -319,6 +335,18 @@ Definition typed_expect (route : nat) (x : pv) : out :=
   | 4 => OJ (Ok (json_of (abs x)))
   | _ => OB (Ok (plutus_bytes (abs x)))
   end%nat.
+
+(* the property on one observed output of a typed case.  A value with plain bytes over 64 bytes in a field of a
+   typed class (guard_ok x = false) is not a legal typed object: pycardano's answer to it is the long-bytes guard.
+   The property holds on such a value when the constructor REFUSES it (route 9: InvalidArgumentException) or,
+   should an object come into being, when every route still yields the reference bytes (refuse or canonical);
+   decoding the reference bytes of its content with the class (route 3) may likewise refuse -- what it may never
+   do is return other bytes. *)
+Definition is_refusal (o : out) : bool :=
+  match o with OB (Err k) => String.eqb k E_InvArg | _ => false end.
+Definition typed_ok (route : nat) (x : pv) (o : out) : bool :=
+  out_eqb (typed_expect route x) o
+  || (negb (guard_ok x) && match route with 3%nat | 9%nat => is_refusal o | _ => false end).
 
 (* ----- decidable premises on typed values ----- *)
 (* typed part of a value: everything reachable through objects, lists and dicts; CBORTag / RawPlutusData
@@ -346,6 +374,13 @@ Fixpoint deep (p : pv -> bool) (v : pv) : bool :=
 Definition v_no_pylist (v : pv) : bool := match v with PList (_ :: _) => false | _ => true end.
 Definition v_no_empty_ilist (v : pv) : bool := match v with PIList [] => false | _ => true end.
 Definition v_short_bytes (v : pv) : bool := match v with PBytes b => (length b <=? 64)%nat | _ => true end.
+(* the elements of a list / the keys and values of a dict are not plain bytes over 64 bytes *)
+Definition v_cont_short (v : pv) : bool :=
+  match v with
+  | PList xs | PIList xs => forallb v_short_bytes xs
+  | PDict kvs => forallb (fun kv => v_short_bytes (fst kv) && v_short_bytes (snd kv)) kvs
+  | _ => true
+  end.
 Definition v_int_ok (v : pv) : bool :=
   match v with
   | PInt z => (- two512Z <=? z)%Z && (z <? two512Z)%Z
@@ -432,40 +467,71 @@ Definition q_json_datum (t : ty) (v : pv) : bool :=
               && match v with PBytes b | PBStr b => (length b <=? 32)%nat | _ => true end
   | _ => true
   end.
+(* Datum / IndefiniteList fields come back from from_cbor as raw data: long plain bytes BELOW such a position (in a
+   class instance, list or map held there) stand behind no constructor's guard once decoded -- this is the
+   flattening of chunk-flatten-on-decode.  The field value itself being long plain bytes is the guard's business. *)
+Definition q_raw_long (t : ty) (v : pv) : bool :=
+  match t with
+  | TIList | TDatum => match v with PBytes _ => true | _ => deep v_short_bytes v end
+  | _ => true
+  end.
 Definition no_tag_outside_raw (x : pv) : bool := vshape (fun w => match w with PTag _ _ => false | _ => true end) x.
+(* from_dict resolves a Union-typed field through f["constructor"]: an int / bytes / ByteString value there (its JSON
+   is {"int": ..} / {"bytes": ..}) raises KeyError, or DeserializeException when no alternative is a class *)
+Definition q_json_union (t : ty) (v : pv) : bool :=
+  match t, v with TUnion _, PObj _ _ _ => true | TUnion _, _ => false | _, _ => true end.
 
-Definition typed_region (route : nat) (t : ty) (x : pv) : nat :=
-  let enc_prem := [(deep v_int_ok x, RG_bigint); (vshape v_int_ok x, RG_bigint); (vshape v_no_pylist x, RG_typed_pylist);
+Definition typed_region (route : nat) (pp : bool) (t : ty) (x : pv) : nat :=
+  let enc_prem := [(guard_ok x, RG_guard); (deep v_int_ok x, RG_bigint); (vshape v_int_ok x, RG_bigint); (vshape v_no_pylist x, RG_typed_pylist);
                    (vshape v_no_empty_ilist x, RG_typed_empty_ilist);
                    (vshape v_short_bytes x, RG_typed_long_in_container);
                    (vshape v_nodup x, RG_dup_keys); (vshape v_hkeys x, RG_key_build);
                    (vshape v_rawc x, RG_typed_datum)] in
   match route with
   | 0 | 1 | 7 => first_region enc_prem
-  | 2 | 3 => first_region (enc_prem ++ [(hollow_keys (abs x), RG_key_decode);
-                                        (tshape q_list_empty t x, RG_typed_list_rt);
-                                        (tshape q_no_flatten t x, RG_chunk)])
+  | 2 => first_region (enc_prem ++ [(hollow_keys (abs x), RG_key_decode);
+                                    (tshape q_list_empty t x, RG_typed_list_rt);
+                                    (tshape q_no_flatten t x, RG_chunk)])
+  (* route 3 is observed also for a value the constructor refused.  Such a value may sit in any other region as
+     well (and from_cbor then fails the way that region says), so the guard premise comes LAST: the region is
+     long-bytes-guard-bypassed only when nothing but the guard stands between the reference bytes and their
+     re-encoding.  For the same reason `plain bytes of at most 64 bytes` is asked of the elements of lists and
+     dicts only (v_cont_short); a long FIELD value is the guard's business *)
+  | 3 => first_region [(tshape q_raw_long t x, RG_chunk);
+                       (deep v_int_ok x, RG_bigint); (vshape v_int_ok x, RG_bigint); (vshape v_no_pylist x, RG_typed_pylist);
+                       (vshape v_no_empty_ilist x, RG_typed_empty_ilist);
+                       (vshape v_cont_short x, RG_typed_long_in_container);
+                       (vshape v_nodup x, RG_dup_keys); (vshape v_hkeys x, RG_key_build);
+                       (vshape v_rawc x, RG_typed_datum);
+                       (hollow_keys (abs x), RG_key_decode);
+                       (tshape q_list_empty t x, RG_typed_list_rt);
+                       (tshape q_no_flatten t x, RG_chunk);
+                       (guard_ok x, RG_guard)]
   | 4 => first_region [(no_tag_outside_raw x, RG_typed_to_dict_tag)]
   | 5 | 6 => first_region (enc_prem ++ [(tshape q_json_bytes t x, RG_typed_json_bytes);
                                         (tshape q_json_generic t x, RG_typed_json_nested);
                                         (no_empty_list (abs x), RG_json_empty_list);
-                                        (tshape q_json_datum t x, RG_norecurse)])
+                                        (tshape q_json_datum t x, RG_norecurse);
+                                        (tshape q_json_union t x, RG_json_union_prim);
+                                        (* string annotations change what from_dict does with this value *)
+                                        (if pp then out_eqb (typed_model route true t x) (typed_model route false t x) else true,
+                                         RG_json_postponed)])
   | _ => RG_none
   end%nat.
 
-Definition typed_corr (t : ty) (x : pv) (ref : bytes) (obs : raw_obs) : list nat :=
+Definition typed_corr (pp : bool) (t : ty) (x : pv) (ref : bytes) (obs : raw_obs) : list nat :=
   (if bytes_eqb ref (plutus_bytes (abs x)) then [] else [99%nat]) ++
-  flat_map (fun ro => if out_eqb (typed_model (fst ro) t x) (snd ro) then [] else [fst ro]) obs.
-Definition typed_oracle (t : ty) (x : pv) (obs : raw_obs) : list (nat * nat) :=
+  flat_map (fun ro => if out_eqb (typed_model (fst ro) pp t x) (snd ro) then [] else [fst ro]) obs.
+Definition typed_oracle (pp : bool) (t : ty) (x : pv) (obs : raw_obs) : list (nat * nat) :=
   flat_map (fun ro => match snd ro with
                       | OSkip => []
-                      | o => if out_eqb (typed_expect (fst ro) x) o then [] else [(fst ro, typed_region (fst ro) t x)]
+                      | o => if typed_ok (fst ro) x o then [] else [(fst ro, typed_region (fst ro) pp t x)]
                       end) obs.
 
 (* ---------- one case of any kind ---------- *)
 Inductive ccase :=
 | CRaw (d : data) (ref : bytes) (obs : raw_obs)
-| CTyped (t : ty) (x : pv) (ref : bytes) (obs : raw_obs)
+| CTyped (pp : bool) (t : ty) (x : pv) (ref : bytes) (obs : raw_obs)
 | CGetTag (i : N) (o : out)
 | CUntag (t len : N) (o : out)
 | CGuard (id : N) (n : nat) (o : out).
@@ -479,7 +545,7 @@ Definition guard_expect (id : N) (n : nat) : out :=
 Definition corr_case (c : ccase) : list nat :=
   match c with
   | CRaw d ref obs => raw_corr d ref obs
-  | CTyped t x ref obs => typed_corr t x ref obs
+  | CTyped pp t x ref obs => typed_corr pp t x ref obs
   | CGetTag i o => if out_eqb (OT (Ok (get_tag i))) o then [] else [0%nat]
   | CUntag t len o => if out_eqb (OU (untag t len)) o then [] else [0%nat]
   | CGuard id n o => if out_eqb (guard_model id n) o then [] else [0%nat]
@@ -488,7 +554,7 @@ Definition corr_case (c : ccase) : list nat :=
 Definition oracle_case (c : ccase) : list (nat * nat) :=
   match c with
   | CRaw d _ obs => raw_oracle d obs
-  | CTyped t x _ obs => typed_oracle t x obs
+  | CTyped pp t x _ obs => typed_oracle pp t x obs
   | CGetTag i o => if out_eqb (OT (Ok (tag_spec i))) o then [] else [(0%nat, RG_none)]
   | CUntag t len o =>
       if out_eqb (OU (untag_spec t len)) o then []
@@ -549,8 +615,8 @@ Definition sound_count (c : ccase) : nat * nat :=
   match c with
   | CRaw d _ obs =>
       (length obs, length (filter (fun ro => match snd ro with OSkip => false | _ => Nat.eqb (raw_region (fst ro) d) 0 end) obs))
-  | CTyped t x _ obs =>
-      (length obs, length (filter (fun ro => match snd ro with OSkip => false | _ => Nat.eqb (typed_region (fst ro) t x) 0 end) obs))
+  | CTyped pp t x _ obs =>
+      (length obs, length (filter (fun ro => match snd ro with OSkip => false | _ => Nat.eqb (typed_region (fst ro) pp t x) 0 end) obs))
   | _ => (1, 1)%nat
   end.
 Definition run_stats (cases : list (nat * ccase)) : list nat :=
